@@ -81,6 +81,11 @@ func applyStreamFault(tape *sim.Tape, kind int, b []byte) []byte {
 		reps := 1
 		if tape.Draw(8) == 0 {
 			reps = 2 + tape.Draw(64) // a retransmission storm: deep nesting from repeated openers
+			if e-a <= 8 && tape.Draw(2) == 0 {
+				// a tiny chunk repeated thousands of times: crosses the size / depth / count
+				// thresholds behind which minifiers switch strategy
+				reps = 1000 + tape.Draw(12000)
+			}
 		}
 		for i := 0; i < reps; i++ {
 			out = append(out, b[a:e]...)
